@@ -939,8 +939,10 @@ theorem checkRules_located : ∀ (f : List Build.BTree) (seen : List Bytes) (e :
       · simp only [Build.fail] at h; injection h with h; subst h; exact ⟨_, here, rfl⟩
       · split at h
         · simp only [Build.fail] at h; injection h with h; subst h; exact ⟨_, here, rfl⟩
-        · rcases checkRules_located r _ e h with ⟨d, hd, hid⟩
-          exact ⟨d, by simp only [C04B.flatF, List.mem_append]; exact Or.inr hd, hid⟩
+        · split at h
+          · simp only [Build.fail] at h; injection h with h; subst h; exact ⟨_, here, rfl⟩
+          · rcases checkRules_located r _ e h with ⟨d, hd, hid⟩
+            exact ⟨d, by simp only [C04B.flatF, List.mem_append]; exact Or.inr hd, hid⟩
     · rcases checkRules_located r _ e h with ⟨d, hd, hid⟩
       exact ⟨d, by simp only [C04B.flatF, List.mem_append]; exact Or.inr hd, hid⟩
 
